@@ -36,7 +36,7 @@ func init() {
 		ID:    "C12",
 		Level: "fault_enumeration",
 		Race:  true,
-		Rule: "enumeration of fault placements around Submit: (presend) parameter-writer / auth-writer / unparsable URL / invalid method / no-producer / failing-producer / directory-as-file errors after upload sources were handed over, and requests that build but cannot be sent (scheme lists of the Runtime or the operation that do not end on http/https, no host, a host that is no host name; a real http.Transport over a dialer that makes no connection; also through the operation's client, with Debug on) (instrumented sources, sources with a declared type, a real temporary file, multipart documents of plain form fields only); (upload) read error at every byte offset of file and stream sources of every length 0..L, sources whose Close errs; " +
+		Rule: "enumeration of fault placements around Submit: (presend) parameter-writer / auth-writer / unparsable URL / invalid method / no-producer / failing-producer / directory-as-file errors after upload sources were handed over, and requests that build but cannot be sent (scheme lists of the Runtime or the operation that do not end on http/https, no host, a host that is no host name; a real http.Transport over a dialer that makes no connection; also through the operation's client, with Debug on) (instrumented sources, sources with a declared type, a real temporary file, multipart documents of plain form fields only); (upload) read error at every byte offset of file and stream sources of every length 0..L, sources whose Close errs; parameter writers that call SetFileParam several times (a field set again with no file, the same file, more or fewer files, three calls, two fields interleaved: every source handed over by a call that returned nil must end up closed, for the success, each source fault, every pre-send fault and a failing transport); " +
 			"(roundtrip) scripted RoundTripper failing before/after consuming the request body, and scripted response bodies x reader behaviours (reads all / half / nothing / fails / closes the body itself / moves the body with io.Copy, the byte-stream consumer or a ReadFrom destination into a destination that refuses part-way) x response Content-Types (usable, absent, no consumer, not parsable) x connection reuse (enabled before the first call, with a configured client, with a client that has no transport, after a first call, through the operation's own client); " +
 			"(server) a raw loopback TCP server that closes, resets, stalls or truncates at every byte offset of a canned response (Content-Length and chunked), or accepts and never reads a 16 MiB upload, x deadline source (request timeout, context from the operation or from Runtime.Context or none, both) x the Runtime's or the operation's client; quick tier: every offset x action, reuse by offset parity except at structural offsets, one deadline source per stall offset (documented in enumerate); " +
 			"(reuse) consecutive calls of one Runtime over a real http.Transport with keep-alive connections to a loopback net/http server that sends the head of a large body and holds the rest until the response reader has returned, x reader behaviours that return early x deadline source (request timeout, context, both, cancel-only, none: all an hour away) x Content-Length/chunked x the ways of enabling reuse: judged on what the transport's own body (wrapped below the library's wrapper) had seen at its first Close; " +
@@ -127,6 +127,10 @@ type Case struct {
 	// the number of body bytes the server sends before it waits for the response reader of the call to have returned
 	Calls    int `json:"calls,omitempty"`
 	RespHead int `json:"respHead,omitempty"`
+	// History (payload file-history): the sequence of SetFileParam calls the parameter writer makes, see history.go
+	// ("file:a|file:" = one file under "file", then the field set again with no file). FaultSrc picks the source that
+	// carries the fault of an upload case among those still named by the last call for their field
+	History string `json:"history,omitempty"`
 }
 
 func (c *Case) key() string {
@@ -142,6 +146,9 @@ func (c *Case) laterKey() string {
 	}
 	if c.Calls != 0 || c.RespHead != 0 {
 		k += fmt.Sprintf("|calls=%d|head=%d", c.Calls, c.RespHead)
+	}
+	if c.History != "" {
+		k += "|history=" + c.History
 	}
 	return k
 }
@@ -713,6 +720,10 @@ func (h *harness) params(c *Case, timeout time.Duration, failWriter bool) rt.Cli
 			h.sources = append(h.sources, s0, s1)
 			_ = req.SetFileParam("file", s0)
 			_ = req.SetFileParam("file", s1)
+		case "file-history":
+			if err := h.applyHistory(c, req); err != nil {
+				return err
+			}
 		case "files-2-fields":
 			s1 := newSource("a.txt", 30, -1, 0)
 			s2 := newSource("b.txt", c.Len, failAtFor(c), c.Chunk)
@@ -814,7 +825,7 @@ const absentCT = "(absent)"
 
 func consumesFor(c *Case) []string {
 	switch c.Payload {
-	case "file", "files+fields", "files-2-fields", "fields", "typed-file", "osfile", "file+dir", "file-replaced":
+	case "file", "files+fields", "files-2-fields", "fields", "typed-file", "osfile", "file+dir", "file-replaced", "file-history":
 		return []string{"multipart/form-data"}
 	case "reader", "readcloser":
 		return []string{"application/octet-stream"}
@@ -1026,7 +1037,7 @@ func runPresend(m *mon.M, c *Case) {
 		}
 	}
 	o := submitWatched(r, op, 200*baseDeadline)
-	feat := c.Fault + "/" + c.Payload
+	feat := c.Fault + "/" + payloadFeat(c)
 	if refused && c.OpClient {
 		feat += "/operation-client"
 	}
@@ -1121,7 +1132,7 @@ func runUpload(m *mon.M, c *Case) {
 	op := &rt.ClientOperation{ID: "x", Method: "POST", PathPattern: "/things", ConsumesMediaTypes: consumesFor(c), ProducesMediaTypes: []string{"application/json"},
 		Params: h.params(c, baseDeadline, false), Reader: h.reader(c), AuthInfo: auth, Context: context.Background()}
 	o := submitWatched(r, op, 200*baseDeadline)
-	feat := c.Payload
+	feat := payloadFeat(c)
 	if c.Fault != "" {
 		feat += "+" + c.Fault
 	}
@@ -1143,6 +1154,14 @@ func runUpload(m *mon.M, c *Case) {
 	faulty := c.Offset >= 0 && c.Offset < c.Len
 	if c.Offset == c.Len && c.Offset >= 0 {
 		faulty = true // error instead of EOF at the very end
+	}
+	if c.Payload == "file-history" && c.Offset >= 0 && !historyHasUploaded(c.History) {
+		// no source is left to be read at the end of the sequence: a source fault cannot be placed
+		m.Class("harness-history-leaves-no-source-to-fail-inconclusive")
+		return
+	}
+	if c.Payload == "file-history" {
+		m.Class("file-history:" + historyClass(c.History))
 	}
 	m.NT(c.key())
 	if o.err != nil && strings.HasPrefix(o.err.Error(), "PANIC") {
@@ -1217,7 +1236,7 @@ func runRoundtrip(m *mon.M, c *Case) {
 	r := wire(m, c, "example.invalid", srt, op)
 	debugOn(r, c)
 	o := submitWatched(r, op, 200*baseDeadline)
-	feat := c.Fault + "/" + c.Payload + "/reader-" + c.Reader
+	feat := c.Fault + "/" + payloadFeat(c) + "/reader-" + c.Reader
 	if c.OpClient {
 		feat += "/operation-client"
 	}
@@ -1965,6 +1984,44 @@ func enumerate(m *mon.M) []*Case {
 		for _, off := range []int{-1, 0, l / 2} {
 			cs = append(cs, &Case{Kind: "upload", Payload: "file-replaced", Len: l, Offset: off, Reader: "all"})
 		}
+	}
+	// the general form: SetFileParam called several times in one WriteToRequest (histories, see history.go): a field
+	// set again with no file, the same file, more files, fewer; three calls; two fields interleaved. Every source handed
+	// over by a call that returned nil must end up closed: for the success (scripted and real transport, with an auth
+	// writer that copies the body, with the request dumped, sources whose Close reports an error), for a source fault
+	// in each of the sources still named at the end, for every pre-send fault and for a failing transport
+	for hi, hs := range histories {
+		for _, f := range []string{"writer-error", "auth-error", "auth-error-after-getbody", "bad-base-path", "bad-path-pattern", "bad-method", "unregistered-media-type", "empty-host", "host-with-space"} {
+			cs = append(cs, &Case{Kind: "presend", Fault: f, Payload: "file-history", History: hs, Len: 700, Reuse: hi%2 == 1, Reader: "all"})
+		}
+		cs = append(cs, &Case{Kind: "presend", Fault: "unusual-schemes", Payload: "file-history", History: hs, Len: 700, Reuse: hi%2 == 0, Reader: "all", RtSchemes: []string{"ws"}})
+		cs = append(cs, &Case{Kind: "presend", Fault: "unusual-schemes", Payload: "file-history", History: hs, Len: 700, Reuse: hi%2 == 1, Reader: "all", OpSchemes: []string{"wss", "ws"}, OpClient: true})
+		cs = append(cs, &Case{Kind: "presend", Fault: "unusual-schemes", Payload: "file-history", History: hs, Len: 700, Reader: "all", RtSchemes: []string{"htpp"}, Debug: true})
+		cs = append(cs, &Case{Kind: "presend", Fault: "writer-error", Payload: "file-history", History: hs, Len: 700, Reader: "all", CloseFails: true})
+		for _, l := range []int{7, 600} {
+			for _, reuse := range []bool{false, true} {
+				cs = append(cs, &Case{Kind: "upload", Payload: "file-history", History: hs, Len: l, Offset: -1, Reuse: reuse, Reader: "all"})
+			}
+			cs = append(cs, &Case{Kind: "upload", Payload: "file-history", History: hs, Len: l, Offset: -1, Reader: "all", Fault: "with-getbody-auth"})
+			cs = append(cs, &Case{Kind: "upload", Payload: "file-history", History: hs, Len: l, Offset: -1, Reader: "all", CloseFails: true})
+			if historyHasUploaded(hs) {
+				for fs := 0; fs < historyUploaded(hs) && fs < 2; fs++ {
+					for _, off := range []int{0, l / 2, l} {
+						cs = append(cs, &Case{Kind: "upload", Payload: "file-history", History: hs, Len: l, Offset: off, Reader: "all", FaultSrc: fs, Chunk: (hi + off) % 2})
+					}
+				}
+				cs = append(cs, &Case{Kind: "upload", Payload: "file-history", History: hs, Len: l, Offset: l / 2, Reader: "all", Fault: "with-getbody-auth"})
+			}
+		}
+		cs = append(cs, &Case{Kind: "upload", Payload: "file-history", History: hs, Len: 600, Offset: -1, Reader: "all", Debug: true})
+		cs = append(cs, &Case{Kind: "upload", Payload: "file-history", History: hs, Len: 600, Offset: -1, Fault: "real-transport", Reader: "all", Reuse: hi%2 == 0})
+		if historyHasUploaded(hs) {
+			cs = append(cs, &Case{Kind: "upload", Payload: "file-history", History: hs, Len: 600, Offset: 550, Fault: "real-transport", Reader: "all", Reuse: hi%2 == 1})
+		}
+		for _, f := range []string{"ok", "err-before", "err-after", "err-mid"} {
+			cs = append(cs, &Case{Kind: "roundtrip", Fault: f, Payload: "file-history", History: hs, Len: 300, Reuse: hi%2 == 0, Reader: "all"})
+		}
+		cs = append(cs, &Case{Kind: "roundtrip", Fault: "ok", Payload: "file-history", History: hs, Len: 300, Reuse: hi%2 == 1, Reader: "err"})
 	}
 	// answers whose Content-Type is unusable, and bodies far larger than any buffer, left unread
 	for _, p := range []string{"json", "file"} {
